@@ -12,6 +12,7 @@ mod pool;
 mod reader;
 mod synrules;
 mod vmtrace;
+mod machine;
 mod gen_cmd;
 mod gcsnap;
 mod gen_alloc;
@@ -37,6 +38,7 @@ fn main() {
         "gcsnap" => gcsnap::main(&args[2..]),
         "codec" => codec::main(&args[2..]),
         "vmtrace" => vmtrace::main(&args[2..]),
+        "machine" => machine::main(&args[2..]),
         "builtins" => builtins::main(&args[2..]),
         "pool" => pool::main(&args[2..]),
         "garbage" => gcsnap::garbage_main(&args[2..]),
